@@ -176,3 +176,19 @@ reg(
     TECHNIQUE="wire-level runtime monitoring with an independent framing parser + cross-attempt byte-equality monitor over enumerated histories",
     REQUIRED_MONITORS={"quick": {"case": 3000, "framing": 3000, "payload_equal": 2000, "resend_compare": 2000}, "thorough": {"case": 30000, "resend_compare": 20000}},
 )
+
+reg(
+    "C04",
+    RULE="(Retry configuration, placement, method, pool type, outcome sequence): a lattice total in {None,0,1,2,False} x one per-category budget in {0,1} crossed with all outcome sequences up to a length bound over {connect refused, read timeout, reset after the request was written, TLS-layer error, 503, 200, 429+Retry-After} for GET/POST on a direct pool; random configurations (all Retry fields incl. allowed_methods, status_forcelist, raise_on_status, respect_retry_after_header, backoff_*; ints/False/None) placed at request, pool or both levels x methods {GET,POST,PUT,DELETE,'get','post'} x sequences of length <= 5 over 14 outcomes (also connect timeout, EOF, garbage, 413/503 with Retry-After seconds or HTTP-date, non-forcelisted 500) x {direct, forwarding-proxy, tunnelling-proxy} pools; a case is that tuple; all non-trivial",
+    ASSUMPTIONS=COMMON_ASSUMPTIONS + [
+        "attempts are classified by what the harness injected: connect error = failed dial; read error = receive timeout / reset / EOF / garbage after the request was completely written; other error = TLS-layer failure; the non-idempotent rule is 'must not re-send' after read errors and error statuses, 'either' after other errors",
+        "the statement bounds retries from above: not retrying although a budget would allow it is not a violation",
+        "sleeps are recorded on a virtual clock (time.sleep in urllib3.util.retry replaced); Retry-After HTTP-dates are relative to that clock",
+    ],
+    SHARDS={"quick": 8, "thorough": 16},
+    BUDGET={"quick": 60, "thorough": 480},
+    LEVEL_TEXT="Runtime monitoring of the closed retry loop on the in-memory network: per-attempt outcome scripts drive the real urlopen recursion; an independent accountant over the injected-outcome log checks attempts <= 1 + total, per-category retry counts, the non-idempotent rule, retries=False, immutability of the caller's Retry (deep snapshot), every recorded sleep, and how exhaustion surfaces (MaxRetryError.reason / last response).",
+    LEVEL_NOTE="Trusts the accountant's classification of injected outcomes and the effective-policy resolver (request level > pool level > Retry(3)).",
+    TECHNIQUE="history monitoring: per-attempt wire/fault log checked by an independent retry-budget accountant; virtual-clock sleep recorder",
+    REQUIRED_MONITORS={"quick": {"case": 8000, "budgets": 8000, "non_idempotent_rule": 8000, "sleeps": 8000, "outcome_shape": 8000, "status_retry_cause": 8000}, "thorough": {"case": 10**5, "budgets": 10**5}},
+)
